@@ -15,6 +15,7 @@ from ..run import Outcome
 
 ID = "C06"
 BUDGET = {"quick": 16000, "thorough": 200000}
+FUZZ = {"thorough": 6000}  # coverage-guided stage: libFuzzer runs per worker (x16), see vk/fuzz.py
 RULE = (
     "Hypothesis: profile of 1-8 untied ballots over 1-5 (sometimes 6) declared candidates: "
     "partial ballots (filled by the library with all completions), int or p/q weights, zero-vote "
